@@ -79,6 +79,13 @@ def run(ctx):
     n = 600 if ctx.quick else 25000
     cases = []
     stream = [M.gen_case(rng, R) for _ in range(n)]
+    # every variable-length / long-run family of the generator once with variable-length fragments on and off
+    for fam_ in [['ab1234-cd', 'ab-cd1234', 'ef-gh5678', 'xy9999-zz'], ['k77777-m', 'k-m88888', 'p-q'], ['https', 'http'],
+                 ['ab', 'cd1234', 'ef12', 'gh123456'], ['x', 'y12345', 'z1'], ['q7777777', 'r', 's77'],
+                 ['a' * 256 + '-1', 'b' * 257 + '-2', 'c' * 256 + '-3'], ['0f' * 128, 'e1' * 128, 'ab' * 129]]:
+        for vl_ in (False, True):
+            stream.append(('list', list(fam_), {'variableLengthFrags': vl_, 'dialect': rng.choice(['perl', 'portable', 'grep']),
+                                               'tag': rng.random() < 0.3}, None, None))
     stream += [('list', [], {}, None, None), ('list', [None], {}, None, None), ('dict', {'a': 0}, {}, None, None),
                ('list', ['', ' '], {'strip': True, 'remove_empties': True}, None, None)]
     for form, arg, opts, size, seed in stream:
